@@ -135,7 +135,7 @@ class Sym:
         return v
 
     def str(self, name):
-        v = z3.String(name)
+        v = z3.Const(name, STR)
         self.ctx.inputs[name] = v
         return v
 
@@ -260,8 +260,15 @@ def model_to_inputs(I, ctx, goal):
         r = ctx.check(z3.Not(goal))
     if r != z3.sat:
         return None, str(r)
-    m = ctx.solver.model()
+    m = getattr(ctx, "_last_model", None) or ctx.solver.model()
+    ctx._last_model = None
+    names = StringNames(I, m)
     out = {}
+
+    def val_to_py(v):
+        if v.sort() == STR:
+            return names.name(v)
+        return val_to_py0(v)
     for name, v in ctx.inputs.items():
         if isinstance(v, Atom):
             n = m.eval(v.length(), model_completion=True).as_long()
@@ -278,7 +285,48 @@ def model_to_inputs(I, ctx, goal):
     return out, "sat"
 
 
-def val_to_py(v):
+class StringNames:
+    """python strings for the elements of the uninterpreted string universe of a model: literals map to
+    themselves; other elements get fresh names ordered by their rank, wrapped in spaces when the model says
+    they are not their own strip()"""
+
+    def __init__(self, I, m):
+        self.I, self.m = I, m
+        self.names = {}
+        self.counter = 0
+
+    def name(self, v, depth=0):
+        v = self.m.eval(v, model_completion=True)
+        key = str(v)
+        if key in self.names:
+            return self.names[key]
+        lv = core.lit_value(v)
+        if lv is None:
+            # equal (in the model) to a literal?
+            for s, c in core._LITS.items():
+                if str(self.m.eval(c, model_completion=True)) == key:
+                    lv = s
+                    break
+        if lv is not None:
+            self.names[key] = lv
+            return lv
+        sv = self.m.eval(self.I.strip_fn(v), model_completion=True)
+        if str(sv) != key and depth < 2:
+            nm = " " + self.name(sv, depth + 1) + " "
+        else:
+            r = self.m.eval(self.I.rank_fn(v), model_completion=True)
+            try:
+                rv = float(r.as_fraction()) if z3.is_rational_value(r) else 0.0
+            except Exception:
+                rv = 0.0
+            self.counter += 1
+            # names sort like their ranks for ranks in a moderate range
+            nm = "L%s%d" % (("%012.4f" % (rv + 500000)) if abs(rv) < 400000 else "", self.counter)
+        self.names[key] = nm
+        return nm
+
+
+def val_to_py0(v):
     if z3.is_int_value(v):
         return v.as_long()
     if z3.is_rational_value(v):
@@ -287,8 +335,6 @@ def val_to_py(v):
         return True
     if z3.is_false(v):
         return False
-    if z3.is_string_value(v):
-        return v.as_string()
     if z3.is_algebraic_value(v):
         return {"approx": v.approx(20).as_decimal(20)}
     return {"z3": str(v)}
@@ -350,6 +396,7 @@ def verify_config(I, c, fn, specf, cfg):
     pathno = [0]
     I.verifying = c.target
     I.float_mode = c.float_mode
+    I.registry_model = lambda goal: model_to_inputs(I, I.ctx, goal)
 
     def one(ctx):
         t0 = time.time()
@@ -389,12 +436,16 @@ def verify_config(I, c, fn, specf, cfg):
             ok, why = compare_outcomes(I, c, real, sp, args1, args2)
             st, detail, model = "discharged", "%s | %s" % (real.describe(), notes), None
             if not ok:
+                pre = None
+                if isinstance(why, tuple) and len(why) == 4:
+                    pre = (why[2], why[3])
+                    why = why[:2]
                 msg, goal = why if isinstance(why, tuple) else (str(why), None)
                 if ok is None:
                     # the engine cannot compare these values: never a violation
                     model, st = None, "undecided"
                 else:
-                    model, status = model_to_inputs(I, ctx, goal)
+                    model, status = pre if pre is not None else model_to_inputs(I, ctx, goal)
                     # a definite mismatch (goal None: different outcome kind / exception class / shape) on a
                     # satisfiable path, or a counter-model of the equality goal
                     st = "failed" if status == "sat" else "undecided"
